@@ -35,6 +35,7 @@ import (
 func init() {
 	evals["tlssmoke"] = evalTLSSmoke
 	evals["hs"] = evalHS
+	evals["hspol"] = evalHSPol
 	evals["gmdecode"] = func(args []string) string { return "ok" }
 	gens["C06"] = genC06
 }
@@ -300,6 +301,44 @@ func evalHS(args []string) string {
 		return "ORACLE-FAIL:second-connection-differs:" + strings.ReplaceAll(second, " ", "_")
 	}
 	return first
+}
+
+// hspol <the 11 arguments of hs, tickets on> <auth2> : a first connection under the policy of the hs arguments, then
+// the SAME client (same session cache) against a server with the same ticket keys whose client-authentication
+// policy is <auth2>. Printed: the verdict of the second connection, which must be what a first connection under
+// <auth2> would give - a ticket never carries a client past a policy it does not meet.
+func evalHSPol(args []string) string {
+	if len(args) != 12 {
+		return "bad-op"
+	}
+	p, ok := parseHS(args[:11])
+	auth2, err := strconv.Atoi(args[11])
+	if !ok || err != nil || p.mode == "std" || !p.tickets {
+		return "bad-op"
+	}
+	sh := &hsShared{cache: gmtls.NewLRUClientSessionCache(4)}
+	sh.srv = buildServer(p)
+	sh.srv.SessionTicketKey = sessionTicketTestKey
+	first := hsOnce(p, sh)
+	if strings.HasPrefix(first, "ORACLE-FAIL") {
+		return first + ":first-connection"
+	}
+	p.seed++
+	p.auth = auth2
+	sh.srv = buildServer(p)
+	sh.srv.SessionTicketKey = sessionTicketTestKey
+	return hspolNorm(hsOnce(p, sh), auth2)
+}
+
+// under a policy that does not REQUIRE a client certificate (0, 1, 3) a resumed session may legitimately show
+// fewer peer certificates than a fresh handshake would: the count is not compared then
+func hspolNorm(verdict string, auth2 int) string {
+	f := strings.Split(verdict, " ")
+	if len(f) == 4 && f[0] == "ok" && (auth2 == 0 || auth2 == 1 || auth2 == 3) {
+		f[3] = "*"
+		return strings.Join(f, " ")
+	}
+	return verdict
 }
 
 type hsShared struct {
@@ -646,6 +685,27 @@ func genC06(r *rng, tier string, emit func(string)) {
 			}
 			cfgs := []string{"tls tls12", "auto tls12", "tls std12", "std tls12", "auto std12"}
 			emit(fmt.Sprintf("hs %s %x %x 0 0 0 s 0 %s %x:%d:%d:1000:%d", cfgs[(i+cv)%len(cfgs)], su, su, scert, r.u64(), r.intn(50), r.intn(50), cv))
+		}
+	}
+	// a ticket obtained under one client-authentication policy offered to a server (same ticket keys) with another:
+	// explicit suite lists, so that resumption is possible at all
+	for _, mode := range []string{"gm", "tls", "auto"} {
+		for a1 := 0; a1 <= 4; a1++ {
+			for a2 := 0; a2 <= 4; a2++ {
+				if a1 == a2 || (tier != "thorough" && (a1+2*a2)%3 != 0 && !(a1 <= 1 && a2 >= 2)) {
+					continue
+				}
+				for cc := 0; cc <= 1; cc++ {
+					client, suites := "gm", "e013"
+					if mode == "tls" || (mode == "auto" && (a1+a2+cc)%2 == 0) {
+						client, suites = "tls12", "9c"
+					}
+					if mode == "gm" {
+						client, suites = "gm", "e013"
+					}
+					emit(fmt.Sprintf("hspol %s %s %s %s 0 %d %d s 1 r %x:10:10:1000 %d", mode, client, suites, suites, a1, cc, r.u64(), a2))
+				}
+			}
 		}
 	}
 	// wire captures of real GMSSL connections for the independent decoder
